@@ -69,7 +69,17 @@ def oracle_roundtrip(case, ctx):
     discs = []
     A = np.array(case["values"], dtype=float)
     n, t = A.shape
-    X = pd.DataFrame({"dim_0": [pd.Series(A[i].copy()) for i in range(n)]})
+    ci = case.get("cell_index")
+    if ci:
+        # the observations of a series are its values in the order they are held; the time
+        # labels of a cell (not written to the file) may be anything: a later origin, a reversed
+        # series that kept its labels, wrapped window labels
+        lab = {"origin": lambda m: list(range(5, 5 + m)), "descending": lambda m: list(range(m - 1, -1, -1)),
+               "wrapped": lambda m: [(k + m // 2) % m for k in range(m)]}[ci]
+        X = pd.DataFrame({"dim_0": [pd.Series(A[i].copy(), index=lab(t)) for i in range(n)]})
+        ctx.label("cell_time_labels_%s" % ci)
+    else:
+        X = pd.DataFrame({"dim_0": [pd.Series(A[i].copy()) for i in range(n)]})
     rl = case.get("row_labels")
     if rl:
         # a shuffled / sliced panel that was not re-indexed: instances are the ROWS, in order
@@ -284,7 +294,8 @@ def rt_cases(draw):
     return {"values": vals, "labels": labels, "labels_as_array": draw(st.booleans()),
             "comment": draw(st.sampled_from(["", "", "a short comment", "a much longer comment " * 6])),
             "equal_length": draw(st.booleans()), "name_id": draw(st.integers(0, 2)),
-            "row_labels": draw(st.sampled_from([None, None, "shifted", "reversed", "shuffled"]))}
+            "row_labels": draw(st.sampled_from([None, None, "shifted", "reversed", "shuffled"])),
+            "cell_index": draw(st.sampled_from([None, None, None, "origin", "descending", "wrapped"]))}
 
 
 def subchecks():
